@@ -578,6 +578,56 @@ def _impl_shippart(fam, top):
     return "|".join(outs)
 
 
+def _impl_shipfile(base):
+    """one shipped file on its own (also when its counterpart is missing or empty): per length, repeated entries and
+    entries that are not permutations of the length they are filed under"""
+    r, st = _shipped(base)
+    if not st.startswith("OK:"):
+        return st.rstrip(":")
+    outs = []
+    for k in sorted(r):
+        items = [tuple(p) for p in r[k]]
+        outs.append("%d:repeated=%d,perms=%s" % (k, len(items) - len(set(items)),
+                                                 "T" if all(sorted(p) == list(range(k)) for p in items) else "F"))
+    return "|".join(outs)
+
+
+class _AutoTimeout(BaseException):
+    pass
+
+
+def _impl_autoname(name):
+    """auto_bisc(<name>): does the name resolve to a shipped data set?  `NOFILES` = it printed that the required files do
+    not exist and returned None; `FOUND` = it found a good and a bad file and started to work on them (cut off after a
+    few seconds: only the look-up is under test here)"""
+    import signal
+
+    def handler(_s, _f):
+        raise _AutoTimeout()
+    old_dir = os.getcwd()
+    old = signal.signal(signal.SIGALRM, handler)
+    buf = io.StringIO()
+    try:
+        os.chdir(os.path.join(REPO, "permuta", "bisc"))       # the look-up is relative to this directory
+        signal.alarm(8)
+        try:
+            with contextlib.redirect_stdout(buf):
+                r = _B.auto_bisc(name)
+        except _AutoTimeout:
+            return "FOUND"
+        except Exception as e:  # pylint: disable=broad-except
+            return "ERR:" + type(e).__name__
+        finally:
+            signal.alarm(0)
+        out = buf.getvalue()
+        if r is None and "The required files do not exist" in out:
+            return "NOFILES"
+        return "FOUND"
+    finally:
+        signal.signal(signal.SIGALRM, old)
+        os.chdir(old_dir)
+
+
 def impl(op, a):
     if op == "bisc":
         return _impl_bisc(a[0], a[1])
@@ -589,6 +639,10 @@ def impl(op, a):
         return _impl_shipped(a[0], a[1])
     if op == "shippart":
         return _impl_shippart(a[0], int(a[1]))
+    if op == "shipfile":
+        return _impl_shipfile(a[0])
+    if op == "autoname":
+        return _impl_autoname(a[0])
     raise ValueError("unknown op " + op)
 
 
@@ -851,8 +905,10 @@ def _oracle_shipped(op, base, ks):
     """the length-k entry of <family>_good_len<L> is exactly {sigma in S_k : property(sigma)}, that of the bad file its
     complement in S_k (so the two files partition S_k), for every k <= L"""
     path = os.path.join(RES, base + ".json")
-    if not os.path.exists(path) or os.path.getsize(path) == 0:
-        return "INVALID"            # a missing / empty file has to be reported as such
+    if not os.path.exists(path):
+        return "INVALID"            # a missing file has to be reported as such
+    # (a file shipped EMPTY is reported as invalid by the reader - rightly - but the property asks more of a shipped data
+    #  set: it is the partition it is named after; so the expected answer is the data, and the empty file is a finding)
     fam, kind, L = SHIP_RE.fullmatch(base).groups()
     want = (kind == "good")
     outs = []
@@ -885,6 +941,17 @@ def oracle(op, a):
         return _oracle_db(a[0], a[1])
     if op in ("shipped", "shippedp"):
         return _oracle_shipped(op, a[0], a[1])
+    if op == "shipfile":
+        path = os.path.join(RES, a[0] + ".json")
+        if not os.path.exists(path) or os.path.getsize(path) == 0:
+            return "INVALID"
+        top = int(SHIP_RE.fullmatch(a[0]).group(3))
+        return "|".join("%d:repeated=0,perms=T" % k for k in range(top + 1))
+    if op == "autoname":
+        # a name resolves iff the package ships <name>_good_len<L>.json and <name>_bad_len<L>.json with L >= 8
+        have = {(m.group(1), m.group(2)) for m in (SHIP_RE.fullmatch(f[:-5]) for f in os.listdir(RES) if f.endswith(".json"))
+                if m and int(m.group(3)) >= 8}
+        return "FOUND" if (a[0], "good") in have and (a[0], "bad") in have else "NOFILES"
     if op == "shippart":
         # the two files partition S_k for every k up to the stated length
         return "|".join("%d:total=%d,repeated=0,both=0,perms=T" % (k, math.factorial(k)) for k in range(int(a[1]) + 1))
@@ -1378,3 +1445,19 @@ def _run(ctx):
     lines.sort(key=lambda l: -int(l.split(" ")[2].split("-")[1]))
     ctx.compare("shipped", lines, use_model=False)
     ctx.compare("shipped-partition", part, use_model=False)
+    ctx.compare("shipped-files-one-by-one", ["shipfile " + b for b in files if SHIP_RE.fullmatch(b)], use_model=False)
+    # auto_bisc(<name>): only a name that IS the name of a shipped data set resolves (single-word family names are used:
+    # the look-up of the source splits file names at every underscore); word prefixes of shipped names do not
+    def _both_nonempty(fam):
+        mine = [b for b in files if SHIP_RE.fullmatch(b) and SHIP_RE.fullmatch(b).group(1) == fam]
+        return all(os.path.getsize(os.path.join(RES, b + ".json")) > 0 for b in mine) and \
+            {SHIP_RE.fullmatch(b).group(2) for b in mine} == {"good", "bad"}
+    # (a family one of whose two files is shipped EMPTY - SimSun, av_231_and_mesh at this commit - is left out: the
+    #  look-up finds the files and the learning then fails on the empty data set; the empty files themselves are
+    #  reported by the `shipped` stream as files the reader has to call invalid)
+    single = sorted({SHIP_RE.fullmatch(b).group(1) for b in files if SHIP_RE.fullmatch(b) and "_" not in SHIP_RE.fullmatch(b).group(1)
+                     and _both_nonempty(SHIP_RE.fullmatch(b).group(1))})
+    prefixes = sorted({"_".join(SHIP_RE.fullmatch(b).group(1).split("_")[:i]) for b in files if SHIP_RE.fullmatch(b)
+                       for i in range(1, len(SHIP_RE.fullmatch(b).group(1).split("_")))})
+    ctx.compare("auto-bisc-names", ["autoname " + n for n in (single[:2] if quick else single) + prefixes + ["nosuchname", "good", "len8"]],
+                use_model=False)
